@@ -13,6 +13,7 @@ import BqVerif.Proofs.CircBatchUnfoldSem
 import BqVerif.Proofs.CircBatchUnfoldOk
 import BqVerif.Proofs.CircRemoveAll
 import BqVerif.Proofs.CircSlice
+import BqVerif.Proofs.CircBatchPopGrid
 /-! # C04 — Circuit editing calls have their documented effect on program order -/
 namespace BqVerif.C04
 open BqVerif.Circ
@@ -578,5 +579,58 @@ example :
       [(0, 3), (-1, 1)].mapM c.getOp = .ok [(0, 3, blkB), (0, 1, blkA)] ∧
       buSorted c [(0, 3, blkB), (0, 1, blkA)] = [(0, blkA), (0, blkB)] ∧
       (c.batchUnfold b [(0, 3), (-1, 1)]).2 = .ok () := by decide
+
+/-- **batch_pop on the grid, for ANY points** (all in range, at least one holding an operation —
+otherwise the call raises and nothing changes): every cycle loses exactly the operations addressed
+by some point (`sel`, characterised in `C04_slice_timeline`), in place, and the cycles that became
+empty are dropped; the returned circuit is the slice of the same points
+(`C04_batch_pop_returns_slice`).  Hence every timeline is the old (cycle-indexed) timeline without
+the selected operations. -/
+theorem C04_batch_pop_grid (c : Circ) (hinv : c.Inv) (pts : List (Int × Int))
+    (hall : pts.all (fun p => c.cycleInRange p.1 && c.qubitInRange p.2) = true)
+    (hne : ((pts.map (fun p => (normIdx c.numCycles p.1, normIdx c.numQudits p.2))).filterMap
+      (fun x => (c.cell x.1 x.2).map (fun o => (x.1, o)))).isEmpty = false) :
+    let sel := c.selected (pts.map (fun p => (normIdx c.numCycles p.1, normIdx c.numQudits p.2)))
+    (c.batchPop pts).1.radixes = c.radixes ∧
+    (c.batchPop pts).1.cycles =
+      ((c.cycles.zipIdx).map (fun x => x.1.filter (fun o => !sel.contains (x.2, o)))).filter
+        (fun cy => !cy.isEmpty) := by
+  intro sel
+  rw [batchPop_grid c hinv pts hall hne]
+  exact ⟨rfl, rfl⟩
+
+-- non-vacuity: a negative index, a duplicate and an idle point; cycle 1 vanishes
+example :
+    let c : Circ := ⟨[2, 2], [[⟨1, [], [0], [2]⟩, ⟨1, [], [1], [2]⟩], [⟨6, [], [0, 1], [2, 2]⟩],
+      [⟨2, [], [1], [2]⟩]]⟩
+    let pts : List (Int × Int) := [(-2, 1), (0, 1), (1, 0), (2, 0)]
+    c.invB = true ∧ pts.all (fun p => c.cycleInRange p.1 && c.qubitInRange p.2) = true ∧
+      ((pts.map (fun p => (normIdx c.numCycles p.1, normIdx c.numQudits p.2))).filterMap
+        (fun x => (c.cell x.1 x.2).map (fun o => (x.1, o)))).isEmpty = false ∧
+      (c.batchPop pts).1.cycles = [[⟨1, [], [0], [2]⟩], [⟨2, [], [1], [2]⟩]] := by decide
+
+/-- **pop_qudit: the timelines.**  For an index in range on a circuit with more than one qudit the
+call succeeds; the radix of the popped qudit `k` disappears; and every other qudit `q`, renamed to
+`q` (below `k`) or `q - 1` (above `k`), keeps its timeline except for the operations that also
+touched `k`, which are gone (the batch pop inside removes exactly the operations on `k`,
+`popQudit_batch`, an instance of `C04_batch_pop_grid`). -/
+theorem C04_pop_qudit_timeline (c : Circ) (hinv : c.Inv) (qi : Int)
+    (hr : c.qubitInRange qi = true) (hn : (c.numQudits == 1) = false) (q : Nat)
+    (hq : q ≠ normIdx c.numQudits qi) :
+    (c.popQudit qi).2 = .ok () ∧
+    (c.popQudit qi).1.radixes = c.radixes.eraseIdx (normIdx c.numQudits qi) ∧
+    (c.popQudit qi).1.timeline (if q < normIdx c.numQudits qi then q else q - 1) =
+      ((c.timeline q).filter (fun o => !o.on (normIdx c.numQudits qi))).map
+        (Op.relabel (fun q => if q < normIdx c.numQudits qi then q else q - 1)) :=
+  popQudit_timeline c hinv qi hr hn q hq
+
+-- non-vacuity: popping qudit 1 (as -2) of X@0 ; CNOT@(0,1), H@2 ; H@1 ; CNOT@(2,1) ; X@2
+example :
+    let c : Circ := ⟨[2, 3, 2], [[⟨1, [], [0], [2]⟩], [⟨6, [], [0, 1], [2, 3]⟩, ⟨2, [], [2], [2]⟩],
+      [⟨2, [], [1], [3]⟩], [⟨6, [], [2, 1], [2, 3]⟩], [⟨1, [], [2], [2]⟩]]⟩
+    c.invB = true ∧ c.qubitInRange (-2) = true ∧ (c.numQudits == 1) = false ∧
+      normIdx c.numQudits (-2) = 1 ∧
+      (c.popQudit (-2)).1 = ⟨[2, 2], [[⟨1, [], [0], [2]⟩], [⟨2, [], [1], [2]⟩],
+        [⟨1, [], [1], [2]⟩]]⟩ := by decide
 
 end BqVerif.C04
